@@ -7,7 +7,7 @@ from .common import *
 
 META = {
     'title': 'white-box DES: key-independent generators are parameterless and read no mutable global state, key-dependent generators depend on (r,K) only, DES building blocks come from des.py and equal FIPS 46-3, table shapes, network evaluation order',
-    'expected_min': 30,
+    'expected_min': 216,
     'explanation': 'table_M1/M2/M3, getrbits_T_in, SRLRformat and ERLRformat take no parameters and reference only functions/classes (no module-level '
                    'variable, no global/nonlocal statement, no function attribute): identical tables for every key hold by construction; table_rKS/'
                    'table_rKT reference their two parameters and functions only (no cache keyed on part of the key); every function of wb.py is '
